@@ -64,7 +64,40 @@ def check(ctx, rep):
         h = prog.resolve_method(P, "handle")
         if ro is None or h is None or ro.cls is not P:
             continue
-        encs = [(c, t) for c, t in eff.calls_of(ro, P) if t.kind == "ext" and t.ext in ("urllib.parse.quote", "urllib.parse.quote_plus", "urllib.parse.quote_from_bytes")]
+        QUOTES = ("urllib.parse.quote", "urllib.parse.quote_plus", "urllib.parse.quote_from_bytes")
+        encs = [(c, t) for c, t in eff.calls_of(ro, P) if t.kind == "ext" and t.ext in QUOTES]
+        helper_problems = []
+        enc_funcs = {id(c): ro for c, _ in encs}
+        # encoders in helpers reached through self-calls
+        seen_h, work = set(), [ro]
+        while work:
+            f0 = work.pop()
+            if f0 in seen_h:
+                continue
+            seen_h.add(f0)
+            for c, t in eff.calls_of(f0, P):
+                if t.kind == "repo" and t.bound_cls is not None:
+                    for g in t.funcs:
+                        if g not in seen_h and g.name not in ("getrenderstr", "getimgtag"):
+                            work.append(g)
+        for hf in seen_h:
+            if hf is ro:
+                continue
+            hencs = [(c, t) for c, t in eff.calls_of(hf, P) if t.kind == "ext" and t.ext in QUOTES]
+            if not hencs:
+                continue
+            for c, t in hencs:
+                enc_funcs[id(c)] = hf
+            encs.extend(hencs)
+            # a quoting helper must quote on every path: no return of something that bypasses the encoder
+            from ..facts import expand_ast as _ea
+
+            for r in ast.walk(hf.node):
+                if isinstance(r, ast.Return) and r.value is not None:
+                    v = _ea(r.value, hf)
+                    if not any(isinstance(x, ast.Call) and (dotted(x.func) or "").split(".")[-1] in ("quote", "quote_plus", "quote_from_bytes") for x in ast.walk(v)) \
+                            and not (isinstance(v, ast.Constant)):
+                        helper_problems.append(f"{hf.qualname} can return `{norm(r.value)[:40]}` without percent-encoding it: such a selector is advertised raw but decoded when requested")
         decs = [(c, t) for c, t in eff.calls_of(h, P) if t.kind == "ext" and t.ext in ("urllib.parse.unquote", "urllib.parse.unquote_plus", "urllib.parse.unquote_to_bytes")]
         if not encs:
             continue  # not a URL-based protocol
@@ -87,7 +120,7 @@ def check(ctx, rep):
                 # self.selector = unquote(self.selector): fine once; twice if another assignment does it again
                 pass
             for ec, et in encs:
-                eenc, eerr, safe = encoder_codec(ec, ro)
+                eenc, eerr, safe = encoder_codec(ec, enc_funcs.get(id(ec), ro))
                 if (eenc, eerr) != (denc, derr):
                     problems.append(f"links are encoded with ({eenc}, {eerr}) but requests are decoded with ({denc}, {derr}): "
                                     "names with bytes outside UTF-8 are advertised but cannot be fetched")
@@ -103,6 +136,7 @@ def check(ctx, rep):
                               and any(isinstance(x, ast.Call) and (dotted(x.func) or "").split(".")[-1].startswith("unquote") for x in ast.walk(n.value)))
         if n_assign_decode > 1:
             problems.append("more than one decoding layer is applied to the selector")
+        problems.extend(helper_problems)
         rep.add("R05a", f"{P.qualname}: encode/decode agree", not problems, ctx.where(ro), "; ".join(sorted(set(problems))),
                 key=f"R05a|{P.qualname}")
         rep.analysed(ro.qualname, h.qualname)
